@@ -53,7 +53,7 @@ LEAFKINDS = ['ineq', 'range', 'mrange', 'roi', 'roix', 'mask', 'slice', 'elem', 
 LINKKINDS = [('oneway', 2), ('oneway_inv', 2), ('identity', 1), ('same', 2), ('twoway', 2), ('multi', 1), ('aligned', 1), ('join', 2)]
 WEIGHTS = {'new': 3, 'new_file': 1.5, 'append': 3, 'remove': 0.7, 'add_derived': 1.5, 'add_link': 4, 'join': 1.5, 'new_group': 6,
            'set_state': 2, 'set_label': 1, 'set_style': 1, 'set_dstyle': 1, 'set_meta': 1.5, 'remove_group': 0.5, 'restart': 4,
-           'remove_link': 0.5}
+           'remove_link': 0.5, 'reorder': 0.7}
 FAULTS = [None, None, None, None, 'torn', 'enospc', 'open_enoent', 'open_enospc', 'closefail', 'read_truncated', 'read_missing',
           'read_empty', 'read_dir']
 
@@ -110,6 +110,8 @@ def generate(rng, cfg, guards):
             ops.append([k, r8(), a, r8()])
         elif k == 'set_meta':
             ops.append([k, r8(), rng.randrange(6), rng.randrange(6)])
+        elif k == 'reorder':
+            ops.append([k, r8(), rng.randrange(1000)])
         else:
             fault = rng.pick(FAULTS) if with_faults else None
             ops.append(['restart', rng.chance(0.7), rng.chance(0.6), fault, rng.randrange(1, 4000), rng.chance(0.3)])
@@ -398,6 +400,11 @@ def _execute(case, res, tmp, fs):
                              and not hasattr(d.get_component(c), '_load_log')]
                     if mains:
                         d.update_components({mains[op[2] % len(mains)]: W.values(op[3], d.shape)})
+            elif k == 'reorder':
+                d = w.pick_data(op[1])
+                if d is not None:
+                    cs = list(d.components)
+                    d.reorder_components([cs[i] for i in np.random.RandomState(op[2]).permutation(len(cs))])
             elif k == 'restart':
                 restart(w, res, fs, op)
             else:
